@@ -407,6 +407,10 @@ class SInt:
         d = self - o2
         if d.__class__ is not SInt:
             return d == 0
+        # canonical sign of the difference: x == y and y == x must blast to the same circuit
+        first = min(d.terms.values(), key=lambda ca: ca[1].serial)
+        if first[0] < 0:
+            d = -d
         lo, hi = d.interval()
         if lo > 0 or hi < 0:
             return False
